@@ -70,13 +70,14 @@ Needed(sc, n) == LET g == Grid(sc) IN
 \* ---- plans
 \* mre / ratere: selectors with every matcher type, among them a regular expression that matches everything and one that
 \* matches the empty value (matchers that do not narrow the selection are still the select's matchers)
-Leaves == IF Q THEN {"m", "moff", "mpin", "rate", "sotoff", "mre", "ratere"} ELSE {"m", "moff", "mneg", "mpin", "mstart", "mend", "rate", "sotoff", "ratepin", "mre", "ratere"}
+\* nope: a selector that matches no series (the selects of the rest of the query are issued all the same)
+Leaves == IF Q THEN {"m", "moff", "mpin", "rate", "sotoff", "mre", "ratere", "nope"} ELSE {"m", "moff", "mneg", "mpin", "mstart", "mend", "rate", "sotoff", "ratepin", "mre", "ratere", "nope"}
 AllKinds == <<Metric("m"), Re("a", ".*", <<"", "x", "y">>), Neq("b", ""), NRe("c", ".+", <<>>), Re("b", ".+", <<"1">>)>>
 \* histq, ts, clamp: functions the engine builds on code paths of their own
 \* selfnarrow: the plan minus a second selector of the same series over a narrower time range (same matchers, same
 \* enclosing function and grouping: the two selects must stay two selects)
 \* wo3, by5, topkwo3: grouping lists of three and five labels, given out of order
-Wraps  == {"id", "abs", "sumby", "sumwo", "neg", "paren", "binl", "binr", "topk", "scal", "histq", "ts", "clamp", "selfnarrow", "wo3", "by5", "topkwo3", "pos"}
+Wraps  == {"id", "abs", "sumby", "sumwo", "neg", "paren", "binl", "binr", "topk", "scal", "histq", "ts", "clamp", "selfnarrow", "wo3", "by5", "topkwo3", "pos", "quantp"}
 LeafPlan(l) ==
   CASE l = "m"      -> <<Sel(<<Metric("m")>>)>>
     [] l = "moff"   -> <<SelOff(<<Metric("m")>>, 2)>>
@@ -87,6 +88,7 @@ LeafPlan(l) ==
     [] l = "rate"   -> <<RFn("rate", <<Metric("m")>>, 3, 0, "none", 0)>>
     [] l = "sotoff" -> <<RFn("sum_over_time", <<Metric("m")>>, 2, 1, "none", 0)>>
     [] l = "ratepin" -> <<RFn("rate", <<Metric("m")>>, 3, 1, "lit", 6)>>
+    [] l = "nope"    -> <<Sel(<<Metric("nope")>>)>>
     [] l = "mre"     -> <<Sel(AllKinds)>>
     [] l = "ratere"  -> <<RFn("rate", AllKinds, 3, 0, "none", 0)>>
 Wrap(w, p) ==
@@ -103,6 +105,7 @@ Wrap(w, p) ==
     [] w = "binl"  -> Join(p, <<Sel(<<Metric("n")>>)>>, LAMBDA a, b : BinM("+", a, b, FALSE, "1:1", TRUE, <<"a">>, <<>>))
     [] w = "binr"  -> Join(<<Num(2)>>, p, LAMBDA a, b : Bin("*", a, b))
     [] w = "topk"  -> Join(<<Sel(<<Metric("p")>>), Fn("scalar", <<1>>)>>, p, LAMBDA a, b : Agg("topk", TRUE, <<"a">>, <<a, b>>))
+    [] w = "quantp" -> Join(<<Sel(<<Metric("p")>>), Fn("scalar", <<1>>)>>, p, LAMBDA a, b : Agg("quantile", TRUE, <<"a">>, <<a, b>>))
     [] w = "histq" -> Join(<<NumS("0.9")>>, p, LAMBDA a, b : Fn("histogram_quantile", <<a, b>>))
     [] w = "ts"    -> Over(p, LAMBDA c : Fn("timestamp", <<c>>))
     [] w = "clamp" -> p \o <<Num(1), Num(9), Fn("clamp", <<Len(p), Len(p) + 1, Len(p) + 2>>)>>
